@@ -289,6 +289,9 @@ def _via_ds(r, rename):
 
 PRODUCERS = {
     "T": lambda r: r.T if r.ndim <= 2 else r.transpose(*r.dims[::-1]), "squeeze": lambda r: r.squeeze(), "flatten": lambda r: r.flatten(),
+    # (along-axis transforms with the axis given as a 1-tuple / 1-list: the documented tuple form with a single dimension)
+    "cumsum_tuple1": lambda r: r.cumsum(axis=(r.dims[0],)), "diff_keep_list1": lambda r: r.diff(axis=[r.dims[-1]], keepaxis=True),
+    "flatten_one": lambda r: r.flatten([r.dims[0]]),
     "flatten_rev": lambda r: r.flatten(r.dims[::-1], insert=0), "unflatten": lambda r: r.unflatten(), "ix_slice": lambda r: r.ix[:2],
     "ix_slice_rev": lambda r: r.ix[::-1], "label_slice": lambda r: r[py(r.axes[0].values[0]):py(r.axes[0].values[1])], "take_axis": lambda r: r.take_axis([1, 0], axis=0, indexing="position"),
     "sort_axis": lambda r: r.sort_axis(axis=0), "reindex": lambda r: r.reindex_axis(py(r.axes[0].values)[::-1], axis=0), "add_partner": lambda r: r + partner(r.dims[0], _first(r)[1]),
@@ -571,7 +574,7 @@ class Space(object):
             if not isinstance(src, DimArray):
                 return ok("disabled", False, terminal=True, canon=None)
             pre = (tuple(common.snap(r) if isinstance(r, DimArray) else None for r in regs), hidden(regs)) if last else None
-            grouped = any(isinstance(ax, MultiAxis) for ax in src.axes)
+            grouped = any(isinstance(ax, MultiAxis) and not _single(ax) for ax in src.axes)
             if kind == "prod":
                 if grouped and name in ("flatten", "flatten_rev"):
                     return ok("disabled", False, terminal=True, canon=None)     # grouping an already grouped axis: outside the alphabet
